@@ -468,7 +468,7 @@ def build_request(method, target, headers, body=None, chunked=None, declare=True
 class Stack:
     """real proxy (Rust harness) + mock hosts, inside the current network namespace"""
 
-    def __init__(self, binp, log_level="Error", wrapper=None):
+    def __init__(self, binp, log_level="Error", wrapper=None, tmpdir=None):
         setup_net()
         self.hosts = MockHosts()
         self.sd = vlib.scratch_dir("e2e")
@@ -484,7 +484,7 @@ class Stack:
         self.panic_log = os.path.join(self.sd, "panics.log")
         os.makedirs(os.path.join(self.sd, "tmp"), exist_ok=True)
         env = dict(os.environ, VERIF_ENGINE="proxy", VERIF_OUT=f"/dev/fd/{w}", VERIF_LOG_LEVEL=log_level,
-                   VERIF_PANIC_LOG=self.panic_log, TMPDIR=os.path.join(self.sd, "tmp"))
+                   VERIF_PANIC_LOG=self.panic_log, TMPDIR=(tmpdir or os.path.join(self.sd, "tmp")))
         self.proc = subprocess.Popen((wrapper or []) + [exe], stdin=subprocess.PIPE, stdout=open(os.path.join(self.sd, "stdout.txt"), "wb"),
                                      stderr=open(os.path.join(self.sd, "stderr.txt"), "wb"), env=env, pass_fds=(w,), cwd=self.sd)
         os.close(w)
